@@ -45,6 +45,26 @@ CLAIMED = {
         "Eigen vectors (static/dynamic) and double through the free-function interface are decided to be the additive group.",
    note=TB + "; shapes enumerated (4 quick / 10 thorough, incl. nested, repeated, all-commutative); correctness of the parts themselves is C01-C05.",
    ref="DESIGN 4/C06", technique="symbolic execution of LLVM IR + SMT (term identity, structural)"),
+ "C07": dict(
+   text="Bounded symbolic check: manifold axioms rminus(rplus(m,a),m)=a, rplus(m,rminus(m2,m))=m2, rminus(m,m)=0 decided by executing the real "
+        "rplus/rminus chains on canonical symbolic elements (unit quaternion as (v, sqrt(1-|v|^2)), unit complex as (sin phi, cos phi)); std::vector (sizes 0..3), "
+        "std::variant (each alternative), AnyManifold and SubManifold (all 8 fixed-dimension subsets of SO3/SE2/Vector3d) compared entry-wise with the element "
+        "operation; cast<double> and copies decided field-wise (term identity), origin kept, only free directions move.",
+   note=TB + "; quick axioms on SO2,SO3,SE2,C1,Vector3d (SE3, Galilei thorough); series-path axiom obligations beyond the enclosure machinery are reported undecided; "
+        "AnyManifold Default/cast (documented to throw) outside.",
+   ref="DESIGN 4/C07", technique="symbolic execution of LLVM IR (incl. heap containers, virtual dispatch) + SMT"),
+ "C16": dict(
+   text="Structural bounded check: every operation through Map<G>/Map<const G> over a caller buffer with guard scalars (view at scalar offsets 3 and 1) is executed "
+        "symbolically; the interpreter's exact per-path write set must lie inside the viewed range (sub-part views: their sub-range), const views are never written, "
+        "Map results are the same term DAG as value results (bit-identical), copies are verbatim, cast<float> is one fptrunc per coefficient in order.",
+   note=TB + "; groups SO2,SO3,SE2,SE3,C1,Galilei,SE_K_3<2> and Bundle<SO3,V3,SE2> parts; write sets exact because pointers are concrete; no concurrency.",
+   ref="DESIGN 4/C16", technique="symbolic execution of LLVM IR with exact write-set tracking (footprints) + SMT for residual equalities"),
+ "C19": dict(
+   text="Bounded symbolic check: ad_sparse, dr_exp(inv)_sparse, d2r_exp(inv)_sparse are executed symbolically (Eigen::SparseMatrix internals run concretely, values symbolic) "
+        "into a host matrix = published pattern at block offset i0 plus sentinel entries; block entries must equal the dense routine's terms for all tangents (which also "
+        "decides pattern completeness: dense entries outside the pattern are identically zero), sentinels survive, index arrays / nonZeros / compression unchanged.",
+   note=TB + "; groups SO2,SO3,SE2,SE3,C1,Bundle<SO3,V3>,Bundle<SE2,Bundle<SO2,V1>>; offsets {0,1} quick, {0,1,4} thorough; dense routines are C04/C05.",
+   ref="DESIGN 4/C19", technique="symbolic execution of LLVM IR (sparse containers concrete, values symbolic) + SMT"),
 }
 NA = {}
 checks = []
